@@ -54,6 +54,48 @@ CHECKS = {
             "Bounded: flat prices, 1-unit orders, <=4 pairs, 3 bars per pair, deviation bound 1 (quick) / 2 (thorough); "
             "2 (quick) / 4 (thorough) extra hash seeds.", "DESIGN.md section 4, C03"),
 }
+
+_EX_TECH = ("explicit-state breadth-first search over operation histories of the real backtesting Exchange (state = "
+            "canonical key, de-duplicated; every transition replayed on a fresh real exchange), with lasso histories "
+            "for long runs and a conformance replay of the fast driver against the public-API driver")
+_EX_NOTE = ("Bounded: amounts 1..5 units, price grid {30,90,100,110,300}, volumes giving 1/2.5/2.75/10 units of liquidity, "
+            "configurations K0..K14 (fee x liquidity x lending x precision x balances x 1-2 pairs), depth 3-4 (quick) / "
+            "4-5 (thorough), lassos up to 240 steps. The synchronous driver (bars delivered by calling the exchange's "
+            "bar handler directly) is trusted only as far as the conformance scenarios and the per-violation public-API "
+            "replay validate it.")
+
+
+def _ex(text):
+    return (_EX_TECH, text, _EX_NOTE, "DESIGN.md sections 2.3, 2.4, 3")
+
+
+CHECKS.update({
+    "C01": _ex("Ledger oracle (total = initial + signed fills - fees - interest paid, per symbol, exact; no fill outside a "
+               "bar; totals unchanged by place/cancel/loan/repay-principal) on every transition of the BFS."),
+    "C02": _ex("Solvency oracle (available, hold, borrowed >= 0; total formula; borrowed = sum of open loan principals, "
+               "including loan amounts off the precision grid) on every transition of the BFS."),
+    "C05": _ex("Lifecycle oracle (monotone fills, open <=> not filled/cancelled/fill-or-kill, closed orders frozen, every "
+               "listing equals the filter of all created orders, one event per acceptance/fill/closure with the right "
+               "timestamp, last event = final info) on every transition, plus lasso histories of up to 240 steps on one "
+               "and two pairs that re-index the open-order list many times."),
+    "C06": _ex("Reservation-table oracle (hold per symbol = sum of the open orders' remaining reservations computed "
+               "independently from the statement; no open order => no hold; hold <= balance) on every transition, plus an "
+               "exhaustive acceptance-boundary enumeration (accepted with exactly the reservation, rejected with one unit "
+               "less) over order types x sides x amounts x awkward prices x 7 fee schemes x 4-6 precisions."),
+    "C07": _ex("Before/after snapshot oracle on every transition whose API call raises (validation, hold, borrowing incl. "
+               "second loan failing, margin rule, repayment, cancel of closed/unknown, no lending strategy)."),
+    "C08": _ex("Liquidity-budget oracle per (pair, bar) with turn order = acceptance order, fill-or-kill orders not filled "
+               "beyond what is left, and precision-grid oracle on every fill delta, fee and reported balance, on every "
+               "transition; liquidity-focused alphabets (1 / 2.5 / 2.75 / 10 units per bar, 3-5 unit orders)."),
+    "C10": _ex("Margin oracle on every granted loan (explicit or auto-borrow): equity in the most favourable reading >= "
+               "requirement x borrowed value at last closes; no lending strategy => every borrow fails; empty, tiny, zero-"
+               "equity and ample accounts, requirement 0 / 0.5 / 1 / 2, lending-focused alphabets with price jumps."),
+    "C11": _ex("Loan oracle on every transition (exact-rational interest formula truncated to precision, repay debits "
+               "principal + interest, closed/unknown loans cannot be repaid, who may close a loan), plus an interest "
+               "grid (percentages x periods x minimums x interest symbols x precisions x principals x price paths x ages "
+               "0..12) and a differential decision of largest-first repayment (auto-repay order vs explicit repayments in "
+               "descending principal, all tie orders)."),
+})
 NOT_YET = "check not built yet (see DESIGN.md section 7 for the build order); no claim is made"
 
 
